@@ -50,11 +50,9 @@ pub fn get() -> FunctionDefinitions {
                                 Some(vec.into())
                             }
                             Some(JsonValue::String(str)) => {
-                                let str = if size > str.len() {
-                                    str
-                                } else {
-                                    str[size - 1..].into()
-                                };
+                                let length = str.chars().count();
+                                let str: String =
+                                    str.chars().skip(length.saturating_sub(size)).collect();
                                 Some(str.into())
                             }
                             _ => None,
